@@ -164,6 +164,48 @@ def Shape.maybeRank (s : Shape) : Option Nat := s.map List.length
 /-- `Shape.can_broadcast`: `broadcast` did not raise `ShapeError`. -/
 def canBroadcast (self : Shape) (other : ShapeArg) : Bool := (broadcastArg self other).isSome
 
+/-! ### The call boundary of `inline(model)(*args, **kwargs)` (`_public.inline_inner` + `_Inline.infer_output_types`) -/
+
+def lookupKw (kw : List (String × Ty)) (n : String) : Option Ty := (kw.find? (fun p => p.1 == n)).map (·.2)
+
+/-- The value bound to input number `i` (named `n`): positional if there is one, else the keyword argument, else
+    the default (the type of the initializer of that name). -/
+def bindOne (dflt : List (String × Ty)) (pos : List Ty) (kw : List (String × Ty)) (n : String) (i : Nat) : Option Ty :=
+  match pos[i]? with
+  | some v => some v
+  | none => match lookupKw kw n with
+            | some v => some v
+            | none => lookupKw dflt n
+
+def bindFrom (dflt : List (String × Ty)) (pos : List Ty) (kw : List (String × Ty)) : List String → Nat → Option (List Ty)
+  | [], _ => some []
+  | n :: ns, i =>
+      match bindOne dflt pos kw n i, bindFrom dflt pos kw ns (i + 1) with
+      | some v, some vs => some (v :: vs)
+      | _, _ => none
+
+/-- `inline_inner`'s argument processing: `none` = TypeError (too many positional arguments; a name given both
+    positionally and by keyword; a missing argument without default; an unknown keyword). Keyword names are unique
+    (Python's `**kwargs`). The result lists the bound values in the order of the model's inputs. -/
+def bindCall (names : List String) (dflt : List (String × Ty)) (pos : List Ty) (kw : List (String × Ty)) :
+    Option (List Ty) :=
+  if pos.length > names.length then none
+  else if (names.take pos.length).any (fun n => (lookupKw kw n).isSome) then none
+  else if kw.any (fun p => !names.contains p.1) then none
+  else bindFrom dflt pos kw names 0
+
+/-- The boundary judgement: every bound value against the declared type of its input. -/
+def judgeAll (tbl : DtypeTable) : List Ty → List Ty → Bool
+  | v :: vs, d :: ds => subtype tbl v d && judgeAll tbl vs ds
+  | _, _ => true
+
+/-- `inline(model)(*pos, **kw)` is accepted (no TypeError). `decl` = the model's inputs (name, declared type). -/
+def callAccepted (tbl : DtypeTable) (decl : List (String × Ty)) (dflt : List (String × Ty))
+    (pos : List Ty) (kw : List (String × Ty)) : Bool :=
+  match bindCall (decl.map (·.1)) dflt pos kw with
+  | some vs => judgeAll tbl vs (decl.map (·.2))
+  | none => false
+
 /-! ### numpy's rule (specification side; compared with `np.broadcast_shapes` on every run) -/
 
 def npElem (a b : Nat) : Option Nat :=
